@@ -58,7 +58,7 @@ func runC03(c *Ctx) {
 	}
 	// 2. every (file type, message type) arm: each known message twice plus
 	// unknown ones, in seeded interleavings
-	rounds := c.pick(4, 12)
+	rounds := c.pick(6, 16)
 	for _, st := range sch.Types {
 		for r := 0; r < rounds; r++ {
 			arch := byte(rng.Intn(2))
@@ -107,8 +107,8 @@ func runC03(c *Ctx) {
 					have[254] = true
 				}
 				more := 1 + rng.Intn(4)
-				if rng.Intn(4) == 0 {
-					more = len(pm.Fields)
+				if rng.Intn(5) < 2 {
+					more = len(pm.Fields) // all of them: whatever field a container might act upon is there
 				}
 				for _, fi := range rng.Perm(len(pm.Fields)) {
 					if more > 0 && !have[pm.Fields[fi].N] {
